@@ -1,33 +1,185 @@
 package main
 
-// T1 facts for C14 (lean/Ibx/Gen/Rest.lean):
-//   routes            the route table of pkg/rest/routes.go and pkg/webui/routes.go (handler func, route name, method,
-//                     sub-router prefix from pkg/server/lifecycle.go, path template as segments), in registration order
-//   handlers          per handler function: does the MailboxForAddress call (followed by `if err != nil { return err }`)
-//                     precede every other ctx.Manager call, and is its result the mailbox argument of all of them;
-//                     how a possibly-nil message / reader is treated before it is used (nilGuard);
-//                     how storage.ErrNotExist is answered
-//   seenRequiresFlag  MailboxMarkSeenV1 calls MarkSeen only under `if dm.Seen`
-//   clientMarkSeenBody / clientEscapers   what pkg/rest/client sends
-// A shape that is not recognised is emitted as "unknown", which no tie theorem accepts.
+// T1 facts for C14 (lean/Ibx/Gen/Rest.lean).  Every fact describes STRUCTURE and BEHAVIOUR, found through go/ast
+// shapes of exported / package-level things (message.Manager methods, storage.ErrNotExist, http.NotFound /
+// http.StatusNotFound, url.QueryEscape, URL.JoinPath, http.NewRequest…, mux Path / Methods / Name / Handler), never through
+// the spelling of local variables, parameters, unexported helpers, comments, log or error text:
+//
+//   routes      the route table of pkg/rest/routes.go and pkg/webui/routes.go (handler func, route name, method,
+//               sub-router prefix from pkg/server/lifecycle.go, path template as segments), in registration order.
+//               The router is "parameter 0 of SetupRoutes" (or a local alias / PathPrefix sub-router of it), the chain
+//               calls may come in any order, methods may be literals or http.MethodX.
+//   handlers    per handler function a BEHAVIOUR TABLE obtained by running a small abstract interpreter over the
+//               function body (if / else-if / switch / early returns / unexported same-package helpers are all just
+//               control flow to it).  The interpreter forks at every call of a message.Manager method over the
+//               answers the model distinguishes (MailboxForAddress: ok | err; pointer-valued fetchers: found | nilnil |
+//               notExist | ioErr; the others: ok | notExist | ioErr) and at the decoded body's `.Seen`; all other
+//               conditions fork anonymously.  A row is (answers chosen so far, Manager calls made with the ROLE of each
+//               argument: canon = result 0 of MailboxForAddress(Vars["name"]), var:k = Vars["k"], set of outcomes:
+//               notFound | error | panic (nil result dereferenced) | done).
+//   seenRequiresFlag   MarkSeen is called exactly on the paths where the decoded body's Seen is true
+//   clientEscapers / clientBodies / clientMarkSeenBody / clientJoin
+//               what reaches http.NewRequest[WithContext] from each client operation: method, URI shape (literal text,
+//               {QueryEscape:n} / {raw:n} = n-th string parameter), body, and how the URL is formed (X.JoinPath(uri).String()).
+// A shape that is not recognised is emitted as "unknown" / none, which no tie theorem accepts.
 
 import (
 	"fmt"
 	"go/ast"
 	"go/token"
+	"os"
+	"path/filepath"
+	"sort"
 	"strconv"
 	"strings"
 )
 
 func init() { extractors = append(extractors, extractRest) }
 
-type routeFact struct {
+// ---------------------------------------------------------------------------------------------------------------------
+// packages, imports, constants
+
+type restPkg struct {
+	files   []*ast.File
+	funcs   map[string][]*ast.FuncDecl // plain functions by name
+	methods map[string][]*ast.FuncDecl // methods by name (any receiver)
+	fileOf  map[*ast.FuncDecl]*ast.File
+	consts  map[string]string // package-level string constants
+	imports map[*ast.File]map[string]string
+}
+
+func restLoadPkg(dir string) *restPkg {
+	p := &restPkg{funcs: map[string][]*ast.FuncDecl{}, methods: map[string][]*ast.FuncDecl{}, fileOf: map[*ast.FuncDecl]*ast.File{},
+		consts: map[string]string{}, imports: map[*ast.File]map[string]string{}}
+	ents, err := os.ReadDir(filepath.Join(repo, dir))
+	if err != nil {
+		return p
+	}
+	names := []string{}
+	for _, e := range ents {
+		n := e.Name()
+		if e.IsDir() || !strings.HasSuffix(n, ".go") || strings.HasSuffix(n, "_test.go") || strings.HasPrefix(n, "verif_") {
+			continue
+		}
+		names = append(names, n)
+	}
+	sort.Strings(names)
+	for _, n := range names {
+		f := parse(filepath.Join(dir, n))
+		if f == nil {
+			continue
+		}
+		p.files = append(p.files, f)
+		p.imports[f] = restImports(f)
+		for _, d := range f.Decls {
+			switch v := d.(type) {
+			case *ast.FuncDecl:
+				p.fileOf[v] = f
+				if v.Recv == nil {
+					p.funcs[v.Name.Name] = append(p.funcs[v.Name.Name], v)
+				} else {
+					p.methods[v.Name.Name] = append(p.methods[v.Name.Name], v)
+				}
+			case *ast.GenDecl:
+				if v.Tok != token.CONST {
+					continue
+				}
+				for _, sp := range v.Specs {
+					vs, ok := sp.(*ast.ValueSpec)
+					if !ok || len(vs.Names) != len(vs.Values) {
+						continue
+					}
+					for i, id := range vs.Names {
+						if s, ok := restStrLit(vs.Values[i]); ok {
+							p.consts[id.Name] = s
+						}
+					}
+				}
+			}
+		}
+	}
+	return p
+}
+
+// restImports: local name -> import path
+func restImports(f *ast.File) map[string]string {
+	m := map[string]string{}
+	for _, im := range f.Imports {
+		path, err := strconv.Unquote(im.Path.Value)
+		if err != nil {
+			continue
+		}
+		name := ""
+		if im.Name != nil {
+			name = im.Name.Name
+		} else {
+			parts := strings.Split(path, "/")
+			name = parts[len(parts)-1]
+			if len(parts) > 1 && len(name) >= 2 && name[0] == 'v' && strings.Trim(name[1:], "0123456789") == "" {
+				name = parts[len(parts)-2]
+			}
+		}
+		m[name] = path
+	}
+	return m
+}
+
+func restStrLit(e ast.Expr) (string, bool) {
+	if lit, ok := e.(*ast.BasicLit); ok && lit.Kind == token.STRING {
+		s, err := strconv.Unquote(lit.Value)
+		return s, err == nil
+	}
+	return "", false
+}
+
+var restHTTPMethods = map[string]string{"MethodGet": "GET", "MethodHead": "HEAD", "MethodPost": "POST", "MethodPut": "PUT",
+	"MethodPatch": "PATCH", "MethodDelete": "DELETE", "MethodOptions": "OPTIONS"}
+
+// restPkgSel: e is `pkgname.Name` with pkgname an import of the file -> (import path, Name)
+func restPkgSel(imports map[string]string, e ast.Expr) (string, string, bool) {
+	se, ok := e.(*ast.SelectorExpr)
+	if !ok {
+		return "", "", false
+	}
+	id, ok := se.X.(*ast.Ident)
+	if !ok {
+		return "", "", false
+	}
+	path, ok := imports[id.Name]
+	if !ok {
+		return "", "", false
+	}
+	return path, se.Sel.Name, true
+}
+
+// restConstStr: a string known at extraction time: literal, http.MethodX, package-level constant
+func restConstStr(p *restPkg, f *ast.File, e ast.Expr) (string, bool) {
+	if s, ok := restStrLit(e); ok {
+		return s, true
+	}
+	if path, name, ok := restPkgSel(p.imports[f], e); ok && path == "net/http" {
+		if m, ok := restHTTPMethods[name]; ok {
+			return m, true
+		}
+	}
+	if id, ok := e.(*ast.Ident); ok {
+		if s, ok := p.consts[id.Name]; ok {
+			return s, true
+		}
+	}
+	return "", false
+}
+
+// ---------------------------------------------------------------------------------------------------------------------
+// routes
+
+type restRoute struct {
 	fn, name, method, sub string
 	tpl                   string
 }
 
-// chainCalls flattens a.B(x).C(y) into [(B, args), (C, args)] with the root expression.
-func chainCalls(e ast.Expr) (root ast.Expr, calls []*ast.CallExpr) {
+// restChain flattens a.B(x).C(y) into [B(x), C(y)] with the root expression a.
+func restChain(e ast.Expr) (root ast.Expr, calls []*ast.CallExpr) {
 	for {
 		ce, ok := e.(*ast.CallExpr)
 		if !ok {
@@ -42,70 +194,123 @@ func chainCalls(e ast.Expr) (root ast.Expr, calls []*ast.CallExpr) {
 	}
 }
 
-func restStrLit(e ast.Expr) (string, bool) {
-	if lit, ok := e.(*ast.BasicLit); ok && lit.Kind == token.STRING {
-		s, err := strconv.Unquote(lit.Value)
-		return s, err == nil
+// restRouterExpr: e denotes a router: a known router variable, or <router>.PathPrefix(lit).Subrouter()
+func restRouterExpr(p *restPkg, f *ast.File, routers map[string]string, e ast.Expr) (string, bool) {
+	root, calls := restChain(e)
+	id, ok := root.(*ast.Ident)
+	if !ok {
+		return "", false
+	}
+	pre, ok := routers[id.Name]
+	if !ok {
+		return "", false
+	}
+	if len(calls) == 0 {
+		return pre, true
+	}
+	if len(calls) == 2 && calls[0].Fun.(*ast.SelectorExpr).Sel.Name == "PathPrefix" && len(calls[0].Args) == 1 &&
+		calls[1].Fun.(*ast.SelectorExpr).Sel.Name == "Subrouter" && len(calls[1].Args) == 0 {
+		if s, ok := restConstStr(p, f, calls[0].Args[0]); ok {
+			return pre + strings.TrimSuffix(s, "/"), true
+		}
 	}
 	return "", false
 }
 
-func routesOf(rel, sub string) ([]routeFact, bool) {
-	f := parse(rel)
-	fd := fn(f, "", "SetupRoutes")
-	if fd == nil || fd.Body == nil {
+// restHandlerArg: web.Handler(F) -> F
+func restHandlerArg(p *restPkg, f *ast.File, e ast.Expr) string {
+	h, ok := e.(*ast.CallExpr)
+	if !ok || len(h.Args) != 1 {
+		return ""
+	}
+	path, name, ok := restPkgSel(p.imports[f], h.Fun)
+	if !ok || !strings.HasSuffix(path, "/pkg/server/web") || name != "Handler" {
+		return ""
+	}
+	if id, ok := h.Args[0].(*ast.Ident); ok {
+		return id.Name
+	}
+	return ""
+}
+
+func restRoutesOf(dir, sub string) ([]restRoute, bool) {
+	p := restLoadPkg(dir)
+	if len(p.funcs["SetupRoutes"]) != 1 {
 		return nil, false
 	}
+	fd := p.funcs["SetupRoutes"][0]
+	f := p.fileOf[fd]
+	if fd.Body == nil || fd.Type.Params == nil || len(fd.Type.Params.List) != 1 || len(fd.Type.Params.List[0].Names) != 1 {
+		return nil, false
+	}
+	routers := map[string]string{fd.Type.Params.List[0].Names[0].Name: ""}
 	ok := true
-	var res []routeFact
+	var res []restRoute
 	for _, st := range fd.Body.List {
-		es, isExpr := st.(*ast.ExprStmt)
-		if !isExpr {
-			ok = false
-			continue
-		}
-		root, calls := chainCalls(es.X)
-		if src(root) != "r" {
-			ok = false
-			continue
-		}
-		rf := routeFact{sub: sub}
-		for _, c := range calls {
-			m := c.Fun.(*ast.SelectorExpr).Sel.Name
-			switch m {
-			case "Path":
-				if len(c.Args) == 1 {
-					rf.tpl, _ = restStrLit(c.Args[0])
-				}
-			case "Handler":
-				if len(c.Args) == 1 {
-					if h, isCall := c.Args[0].(*ast.CallExpr); isCall && src(h.Fun) == "web.Handler" && len(h.Args) == 1 {
-						rf.fn = src(h.Args[0])
+		switch v := st.(type) {
+		case *ast.AssignStmt:
+			// alias or sub-router of a known router
+			if len(v.Lhs) == 1 && len(v.Rhs) == 1 {
+				if id, isID := v.Lhs[0].(*ast.Ident); isID {
+					if pre, isR := restRouterExpr(p, f, routers, v.Rhs[0]); isR {
+						routers[id.Name] = pre
+						continue
 					}
 				}
-			case "Name":
-				if len(c.Args) == 1 {
-					rf.name, _ = restStrLit(c.Args[0])
-				}
-			case "Methods":
-				if len(c.Args) == 1 {
-					rf.method, _ = restStrLit(c.Args[0])
-				} else {
+			}
+			ok = false
+		case *ast.ExprStmt:
+			root, calls := restChain(v.X)
+			id, isID := root.(*ast.Ident)
+			pre, isR := "", false
+			if isID {
+				pre, isR = routers[id.Name]
+			}
+			if !isR || len(calls) == 0 {
+				ok = false
+				continue
+			}
+			rf := restRoute{sub: sub}
+			seen := map[string]bool{}
+			for _, c := range calls {
+				m := c.Fun.(*ast.SelectorExpr).Sel.Name
+				if seen[m] {
 					ok = false
 				}
-			default:
+				seen[m] = true
+				switch {
+				case m == "Path" && len(c.Args) == 1:
+					if s, isS := restConstStr(p, f, c.Args[0]); isS {
+						rf.tpl = pre + s
+					}
+				case m == "Handle" && len(c.Args) == 2:
+					if s, isS := restConstStr(p, f, c.Args[0]); isS {
+						rf.tpl = pre + s
+					}
+					rf.fn = restHandlerArg(p, f, c.Args[1])
+				case m == "Handler" && len(c.Args) == 1:
+					rf.fn = restHandlerArg(p, f, c.Args[0])
+				case m == "Name" && len(c.Args) == 1:
+					rf.name, _ = restConstStr(p, f, c.Args[0])
+				case m == "Methods" && len(c.Args) == 1:
+					rf.method, _ = restConstStr(p, f, c.Args[0])
+				default:
+					ok = false
+				}
+			}
+			if rf.tpl == "" || rf.fn == "" || rf.name == "" || rf.method == "" {
 				ok = false
 			}
-		}
-		if rf.tpl == "" || rf.fn == "" || rf.name == "" || rf.method == "" {
+			res = append(res, rf)
+		case *ast.EmptyStmt:
+		default:
 			ok = false
 		}
-		res = append(res, rf)
 	}
 	return res, ok
 }
 
-func leanSegs(tpl string) string {
+func restLeanSegs(tpl string) string {
 	p := []string{}
 	for _, s := range strings.Split(strings.Trim(tpl, "/"), "/") {
 		if strings.HasPrefix(s, "{") && strings.HasSuffix(s, "}") && !strings.Contains(s, ":") {
@@ -117,209 +322,1331 @@ func leanSegs(tpl string) string {
 	return "[" + strings.Join(p, ", ") + "]"
 }
 
-// subPrefixes: the literals of `X.SetupRoutes(web.Router.PathPrefix(prefix("<lit>")).Subrouter())` in FullAssembly, in order.
-func subPrefixes() (order []string, prefix map[string]string) {
+// restSubPrefixes: FullAssembly calls <webui|rest>.SetupRoutes(R) with R = web.Router.PathPrefix(F("<lit>")).Subrouter(), F a local
+// defined as stringutil.MakePathPrefixer(…); R may be written in place or held in a local variable.  In call order.
+func restSubPrefixes() (order []string, prefix map[string]string) {
 	prefix = map[string]string{}
-	f := parse("pkg/server/lifecycle.go")
-	fd := fn(f, "", "FullAssembly")
-	if fd == nil {
+	p := restLoadPkg("pkg/server")
+	if len(p.funcs["FullAssembly"]) != 1 {
 		return
+	}
+	fd := p.funcs["FullAssembly"][0]
+	imports := p.imports[p.fileOf[fd]]
+	defs := map[string]ast.Expr{}
+	ndefs := map[string]int{}
+	ast.Inspect(fd, func(n ast.Node) bool {
+		if as, ok := n.(*ast.AssignStmt); ok && len(as.Lhs) == len(as.Rhs) {
+			for i, l := range as.Lhs {
+				if id, ok := l.(*ast.Ident); ok {
+					defs[id.Name] = as.Rhs[i]
+					ndefs[id.Name]++
+				}
+			}
+		}
+		return true
+	})
+	resolve := func(e ast.Expr) ast.Expr {
+		if id, ok := e.(*ast.Ident); ok && ndefs[id.Name] == 1 {
+			return defs[id.Name]
+		}
+		return e
 	}
 	ast.Inspect(fd, func(n ast.Node) bool {
 		ce, ok := n.(*ast.CallExpr)
 		if !ok {
 			return true
 		}
-		fs := src(ce.Fun)
-		if (fs == "webui.SetupRoutes" || fs == "rest.SetupRoutes") && len(ce.Args) == 1 {
-			a := src(ce.Args[0])
-			const pre, post = `web.Router.PathPrefix(prefix("`, `")).Subrouter()`
-			if strings.HasPrefix(a, pre) && strings.HasSuffix(a, post) {
-				pkg := strings.TrimSuffix(fs, ".SetupRoutes")
-				order = append(order, pkg)
-				prefix[pkg] = strings.Trim(a[len(pre):len(a)-len(post)], "/")
-			}
+		path, name, ok := restPkgSel(imports, ce.Fun)
+		if !ok || name != "SetupRoutes" || len(ce.Args) != 1 {
+			return true
+		}
+		pkg := ""
+		switch {
+		case strings.HasSuffix(path, "/pkg/webui"):
+			pkg = "webui"
+		case strings.HasSuffix(path, "/pkg/rest"):
+			pkg = "rest"
+		default:
+			return true
+		}
+		order = append(order, pkg)
+		root, calls := restChain(resolve(ce.Args[0]))
+		rp, rn, isSel := restPkgSel(imports, root)
+		if !isSel || !strings.HasSuffix(rp, "/pkg/server/web") || rn != "Router" || len(calls) != 2 {
 			return false
 		}
-		return true
+		if calls[0].Fun.(*ast.SelectorExpr).Sel.Name != "PathPrefix" || len(calls[0].Args) != 1 ||
+			calls[1].Fun.(*ast.SelectorExpr).Sel.Name != "Subrouter" || len(calls[1].Args) != 0 {
+			return false
+		}
+		pc, ok := calls[0].Args[0].(*ast.CallExpr)
+		if !ok || len(pc.Args) != 1 {
+			return false
+		}
+		lit, ok := restStrLit(pc.Args[0])
+		if !ok {
+			return false
+		}
+		mk, ok := resolve(pc.Fun).(*ast.CallExpr)
+		if !ok {
+			return false
+		}
+		mp, mn, ok := restPkgSel(imports, mk.Fun)
+		if !ok || !strings.HasSuffix(mp, "/pkg/stringutil") || mn != "MakePathPrefixer" {
+			return false
+		}
+		if _, dup := prefix[pkg]; !dup {
+			prefix[pkg] = strings.Trim(lit, "/")
+		}
+		return false
 	})
 	return
 }
 
-type handlerFact struct {
-	name       string
-	canonFirst bool     // MailboxForAddress + `return err` precede every other Manager call, whose mailbox argument is its result
-	mgrCalls   []string // the other ctx.Manager methods called, in source order
-	nilGuard   string   // guarded | unguarded | none | unknown
-	notExist   string   // eq404 (err == ErrNotExist → NotFound) | passNil (err != nil && err != ErrNotExist → 500, nil falls through) | none | unknown
+// ---------------------------------------------------------------------------------------------------------------------
+// the abstract interpreter
+
+type restPart struct {
+	lit bool
+	s   string
 }
 
-func isNotFoundReturn(b *ast.BlockStmt) bool {
-	if b == nil || len(b.List) != 2 {
-		return false
-	}
-	es, ok := b.List[0].(*ast.ExprStmt)
-	if !ok || src(es.X) != "http.NotFound(w, req)" {
-		return false
-	}
-	rs, ok := b.List[1].(*ast.ReturnStmt)
-	return ok && len(rs.Results) == 1 && src(rs.Results[0]) == "nil"
+// restVal kinds: opaque nil nonnil bool mgr vars rawvar canon res err decoded str param bytes reader joined urlstr tuple
+type restVal struct {
+	k     string
+	s     string
+	parts []restPart
+	tup   []*restVal
 }
 
-func restHandlerFacts(f *ast.File, name string) handlerFact {
-	hf := handlerFact{name: name, nilGuard: "unknown", notExist: "unknown"}
-	fd := fn(f, "", name)
-	if fd == nil || fd.Body == nil {
-		return hf
+func restOpaque() *restVal { return &restVal{k: "opaque"} }
+func restBool(b bool) *restVal {
+	if b {
+		return &restVal{k: "bool", s: "true"}
 	}
-	// statement-level walk of the top-level block (the handlers are straight-line code with early returns)
-	canonVar := ""
-	canonChecked := false
-	canonOK := true
-	resVar := ""      // variable holding the possibly-nil message / reader
-	guarded := false  // `if resVar == nil { NotFound; return nil }` seen
-	usedBefore := false
-	used := false
-	sawEq404, sawPassNil := false, false
-	mgrCall := func(e ast.Expr) (string, []ast.Expr, bool) {
-		ce, ok := e.(*ast.CallExpr)
-		if !ok {
-			return "", nil, false
-		}
-		s := src(ce.Fun)
-		if strings.HasPrefix(s, "ctx.Manager.") {
-			return strings.TrimPrefix(s, "ctx.Manager."), ce.Args, true
-		}
-		return "", nil, false
+	return &restVal{k: "bool", s: "false"}
+}
+func restStrVal(s string) *restVal { return &restVal{k: "str", parts: []restPart{{true, s}}} }
+
+// restStrParts: the pieces of a value used inside a string concatenation
+func restStrParts(v *restVal) []restPart {
+	switch v.k {
+	case "str":
+		return v.parts
+	case "param":
+		return []restPart{{false, "raw:" + v.s}}
+	case "rawvar":
+		return []restPart{{false, "var:" + v.s}}
+	case "canon":
+		return []restPart{{false, "canon"}}
 	}
-	var visitStmt func(st ast.Stmt, top bool)
-	noteUse := func(n ast.Node) {
-		if resVar == "" || n == nil {
+	return []restPart{{false, "?"}}
+}
+
+func restShape(parts []restPart) string {
+	var b strings.Builder
+	for _, p := range parts {
+		if p.lit {
+			b.WriteString(p.s)
+		} else {
+			b.WriteString("{" + p.s + "}")
+		}
+	}
+	return b.String()
+}
+
+func restAllLit(v *restVal) (string, bool) {
+	if v.k != "str" {
+		return "", false
+	}
+	var b strings.Builder
+	for _, p := range v.parts {
+		if !p.lit {
+			return "", false
+		}
+		b.WriteString(p.s)
+	}
+	return b.String(), true
+}
+
+type restScope struct {
+	vars   map[string]*restVal
+	parent *restScope
+}
+
+func (s *restScope) lookup(n string) (*restScope, *restVal) {
+	for c := s; c != nil; c = c.parent {
+		if v, ok := c.vars[n]; ok {
+			return c, v
+		}
+	}
+	return nil, nil
+}
+
+type restFrame struct {
+	fd      *ast.FuncDecl
+	file    *ast.File
+	scope   *restScope
+	results []string // names of named results ("" when unnamed)
+	ret     []*restVal
+}
+
+type restStop struct{ kind string } // "panic" (abstract nil dereference) | "abort" (unsupported shape)
+
+const (
+	restNormal = iota
+	restReturn
+	restBreak
+	restContinue
+)
+
+type restInterp struct {
+	pkg    *restPkg
+	mgrSig map[string]string // Manager method -> "ptr" | "val" | "err" | "canon"
+	// choice engine
+	script []int
+	limits []int
+	pos    int
+	// per path
+	fr       *restFrame
+	key      []string
+	calls    []string
+	notFound bool
+	status   string
+	requests []string
+	reason   string
+	depth    int
+	steps    int
+}
+
+func (in *restInterp) choose(n int) int {
+	if in.pos < len(in.script) {
+		c := in.script[in.pos]
+		in.limits[in.pos] = n
+		in.pos++
+		return c
+	}
+	in.script = append(in.script, 0)
+	in.limits = append(in.limits, n)
+	in.pos++
+	return 0
+}
+
+func (in *restInterp) abort(why string) {
+	in.reason = why
+	panic(restStop{"abort"})
+}
+
+func (in *restInterp) imports() map[string]string { return in.pkg.imports[in.fr.file] }
+
+func (in *restInterp) push() {
+	in.fr.scope = &restScope{vars: map[string]*restVal{}, parent: in.fr.scope}
+}
+func (in *restInterp) pop() { in.fr.scope = in.fr.scope.parent }
+
+func (in *restInterp) define(n string, v *restVal) {
+	if n != "_" {
+		in.fr.scope.vars[n] = v
+	}
+}
+
+func (in *restInterp) assign(n string, v *restVal) {
+	if n == "_" {
+		return
+	}
+	if sc, _ := in.fr.scope.lookup(n); sc != nil {
+		sc.vars[n] = v
+		return
+	}
+	in.fr.scope.vars[n] = v
+}
+
+func (in *restInterp) deref(v *restVal) {
+	if v.k == "res" && v.s == "nil" {
+		panic(restStop{"panic"})
+	}
+}
+
+// restNilTok classifies a value for comparisons: "nil", "E:notExist", "E:other", "NN" (some non-nil thing), "" (unknown)
+func restNilTok(v *restVal) string {
+	switch v.k {
+	case "nil":
+		return "nil"
+	case "err":
+		if v.s == "nil" {
+			return "nil"
+		}
+		return "E:" + v.s
+	case "res":
+		if v.s == "nil" {
+			return "nil"
+		}
+		return "NN"
+	case "nonnil", "bytes", "reader", "mgr", "vars", "joined":
+		return "NN"
+	}
+	return ""
+}
+
+func restEqual(a, b *restVal) (bool, bool) {
+	if sa, ok := restAllLit(a); ok {
+		if sb, ok := restAllLit(b); ok {
+			return sa == sb, true
+		}
+	}
+	if a.k == "bool" && b.k == "bool" {
+		return a.s == b.s, true
+	}
+	ta, tb := restNilTok(a), restNilTok(b)
+	if ta == "" || tb == "" {
+		return false, false
+	}
+	switch {
+	case ta == "nil" || tb == "nil":
+		return ta == tb, true
+	case ta == "E:notExist" && tb == "E:notExist":
+		return true, true
+	case (ta == "E:notExist" && tb == "E:other") || (ta == "E:other" && tb == "E:notExist"):
+		return false, true
+	}
+	return false, false
+}
+
+// evalEq: x == y; an unknown comparison with nil forks and refines the variable
+func (in *restInterp) evalEq(x, y ast.Expr) bool {
+	a := in.eval(x)
+	b := in.eval(y)
+	if r, ok := restEqual(a, b); ok {
+		return r
+	}
+	r := in.choose(2) == 0
+	refine := func(e ast.Expr, other *restVal) {
+		id, ok := e.(*ast.Ident)
+		if !ok || other.k != "nil" {
 			return
 		}
-		ast.Inspect(n, func(x ast.Node) bool {
-			switch v := x.(type) {
-			case *ast.SelectorExpr:
-				if id, ok := v.X.(*ast.Ident); ok && id.Name == resVar {
-					used = true
-					if !guarded {
-						usedBefore = true
-					}
-				}
-			case *ast.CallExpr:
-				if src(v.Fun) == "io.Copy" && len(v.Args) == 2 && src(v.Args[1]) == resVar {
-					used = true
-					if !guarded {
-						usedBefore = true
-					}
-				}
-			}
-			return true
-		})
-	}
-	handleCall := func(method string, args []ast.Expr, lhs []ast.Expr) {
-		if method == "MailboxForAddress" {
-			if canonVar == "" && len(hf.mgrCalls) == 0 && len(lhs) == 2 && len(args) == 1 && src(args[0]) == `ctx.Vars["name"]` {
-				canonVar = src(lhs[0])
+		if sc, cur := in.fr.scope.lookup(id.Name); sc != nil && cur.k == "opaque" {
+			if r {
+				sc.vars[id.Name] = &restVal{k: "nil"}
 			} else {
-				canonOK = false
+				sc.vars[id.Name] = &restVal{k: "nonnil"}
 			}
-			return
-		}
-		hf.mgrCalls = append(hf.mgrCalls, method)
-		if canonVar == "" || !canonChecked || len(args) == 0 || src(args[0]) != canonVar {
-			canonOK = false
-		}
-		if (method == "GetMessage" || method == "SourceReader") && len(lhs) == 2 {
-			resVar = src(lhs[0])
 		}
 	}
-	visitStmt = func(st ast.Stmt, top bool) {
-		switch v := st.(type) {
-		case *ast.AssignStmt:
-			if len(v.Rhs) == 1 {
-				if m, args, ok := mgrCall(v.Rhs[0]); ok {
-					handleCall(m, args, v.Lhs)
-					return
+	refine(x, b)
+	refine(y, a)
+	return r
+}
+
+func (in *restInterp) truth(e ast.Expr) bool {
+	v := in.eval(e)
+	if v.k == "bool" {
+		return v.s == "true"
+	}
+	return in.choose(2) == 0
+}
+
+func (in *restInterp) isLocal(n string) bool {
+	sc, _ := in.fr.scope.lookup(n)
+	return sc != nil
+}
+
+// pkgSel honours shadowing of an import name by a local variable
+func (in *restInterp) pkgSel(e ast.Expr) (string, string, bool) {
+	if se, ok := e.(*ast.SelectorExpr); ok {
+		if id, ok := se.X.(*ast.Ident); ok && in.isLocal(id.Name) {
+			return "", "", false
+		}
+	}
+	return restPkgSel(in.imports(), e)
+}
+
+func (in *restInterp) eval(e ast.Expr) *restVal {
+	in.steps++
+	if in.steps > 200000 {
+		in.abort("too many steps")
+	}
+	switch v := e.(type) {
+	case *ast.Ident:
+		switch v.Name {
+		case "nil":
+			return &restVal{k: "nil"}
+		case "true":
+			return restBool(true)
+		case "false":
+			return restBool(false)
+		}
+		if _, val := in.fr.scope.lookup(v.Name); val != nil {
+			return val
+		}
+		if s, ok := in.pkg.consts[v.Name]; ok {
+			return restStrVal(s)
+		}
+		return restOpaque()
+	case *ast.BasicLit:
+		if s, ok := restStrLit(v); ok {
+			return restStrVal(s)
+		}
+		return restOpaque()
+	case *ast.ParenExpr:
+		return in.eval(v.X)
+	case *ast.SelectorExpr:
+		if path, name, ok := in.pkgSel(v); ok {
+			if strings.HasSuffix(path, "/pkg/storage") && name == "ErrNotExist" {
+				return &restVal{k: "err", s: "notExist"}
+			}
+			if path == "net/http" {
+				if m, ok := restHTTPMethods[name]; ok {
+					return restStrVal(m)
 				}
 			}
-			noteUse(v)
-		case *ast.IfStmt:
-			cond := src(v.Cond)
-			if v.Init != nil {
-				visitStmt(v.Init, false)
+			return restOpaque()
+		}
+		x := in.eval(v.X)
+		in.deref(x)
+		switch {
+		case v.Sel.Name == "Manager":
+			return &restVal{k: "mgr"}
+		case v.Sel.Name == "Vars":
+			return &restVal{k: "vars"}
+		case x.k == "decoded" && v.Sel.Name == "Seen":
+			if in.choose(2) == 0 {
+				in.key = append(in.key, "seen=true")
+				return restBool(true)
 			}
-			switch {
-			case canonVar != "" && !canonChecked && cond == "err != nil" && len(v.Body.List) == 1 && src(v.Body.List[0]) == "return err" && len(hf.mgrCalls) == 0:
-				canonChecked = true
-			case resVar != "" && cond == resVar+" == nil" && isNotFoundReturn(v.Body):
-				guarded = true
-			case cond == "err == storage.ErrNotExist" && isNotFoundReturn(v.Body):
-				sawEq404 = true
-			case cond == "err != nil && err != storage.ErrNotExist":
-				sawPassNil = true
+			in.key = append(in.key, "seen=false")
+			return restBool(false)
+		}
+		return restOpaque()
+	case *ast.IndexExpr:
+		x := in.eval(v.X)
+		idx := in.eval(v.Index)
+		if x.k == "vars" {
+			if s, ok := restAllLit(idx); ok {
+				return &restVal{k: "rawvar", s: s}
+			}
+		}
+		in.deref(x)
+		return restOpaque()
+	case *ast.SliceExpr:
+		in.deref(in.eval(v.X))
+		for _, s := range []ast.Expr{v.Low, v.High, v.Max} {
+			if s != nil {
+				in.eval(s)
+			}
+		}
+		return restOpaque()
+	case *ast.StarExpr:
+		x := in.eval(v.X)
+		in.deref(x)
+		return restOpaque()
+	case *ast.UnaryExpr:
+		if v.Op == token.NOT {
+			return restBool(!in.truth(v.X))
+		}
+		in.eval(v.X)
+		return restOpaque()
+	case *ast.BinaryExpr:
+		switch v.Op {
+		case token.LAND:
+			if !in.truth(v.X) {
+				return restBool(false)
+			}
+			return restBool(in.truth(v.Y))
+		case token.LOR:
+			if in.truth(v.X) {
+				return restBool(true)
+			}
+			return restBool(in.truth(v.Y))
+		case token.EQL:
+			return restBool(in.evalEq(v.X, v.Y))
+		case token.NEQ:
+			return restBool(!in.evalEq(v.X, v.Y))
+		case token.ADD:
+			a := in.eval(v.X)
+			b := in.eval(v.Y)
+			if a.k == "str" || b.k == "str" {
+				ps := append(append([]restPart{}, restStrParts(a)...), restStrParts(b)...)
+				return &restVal{k: "str", parts: restMerge(ps)}
+			}
+			return restOpaque()
+		}
+		in.eval(v.X)
+		in.eval(v.Y)
+		return restOpaque()
+	case *ast.CallExpr:
+		return in.evalCall(v)
+	case *ast.CompositeLit:
+		for _, el := range v.Elts {
+			if kv, ok := el.(*ast.KeyValueExpr); ok {
+				in.eval(kv.Value)
+			} else {
+				in.eval(el)
+			}
+		}
+		return restOpaque()
+	case *ast.KeyValueExpr:
+		return in.eval(v.Value)
+	case *ast.TypeAssertExpr:
+		in.eval(v.X)
+		return restOpaque()
+	case *ast.FuncLit:
+		return restOpaque()
+	}
+	return restOpaque()
+}
+
+func restMerge(ps []restPart) []restPart {
+	out := []restPart{}
+	for _, p := range ps {
+		if p.lit && p.s == "" {
+			continue
+		}
+		if n := len(out); n > 0 && out[n-1].lit && p.lit {
+			out[n-1].s += p.s
+			continue
+		}
+		out = append(out, p)
+	}
+	return out
+}
+
+var restBuiltins = map[string]bool{"len": true, "cap": true, "make": true, "new": true, "append": true, "copy": true, "delete": true,
+	"int": true, "int32": true, "int64": true, "uint": true, "uint32": true, "uint64": true, "string": true, "byte": true,
+	"float64": true, "panic": true, "print": true, "println": true, "min": true, "max": true}
+
+// args of a call that is not inlined: a possibly-nil result handed on counts as a use; HTTP status constants are noted
+func (in *restInterp) plainArgs(ce *ast.CallExpr) []*restVal {
+	vals := []*restVal{}
+	for _, a := range ce.Args {
+		if path, name, ok := in.pkgSel(a); ok && path == "net/http" && strings.HasPrefix(name, "Status") {
+			if name == "StatusNotFound" {
+				in.notFound = true
+			} else {
+				in.status = name
+			}
+			vals = append(vals, restOpaque())
+			continue
+		}
+		if lit, ok := a.(*ast.BasicLit); ok && lit.Kind == token.INT {
+			if lit.Value == "404" {
+				in.notFound = true
+			} else if len(lit.Value) == 3 && (lit.Value[0] == '4' || lit.Value[0] == '5' || lit.Value[0] == '2' || lit.Value[0] == '3') {
+				in.status = lit.Value
+			}
+		}
+		v := in.eval(a)
+		in.deref(v)
+		vals = append(vals, v)
+	}
+	return vals
+}
+
+func (in *restInterp) argRole(v *restVal) string {
+	switch v.k {
+	case "canon":
+		return "canon"
+	case "rawvar":
+		return "var:" + v.s
+	case "param":
+		return "param:" + v.s
+	case "str":
+		if _, ok := restAllLit(v); ok {
+			return "lit"
+		}
+	}
+	return "?"
+}
+
+func (in *restInterp) mgrCall(method string, ce *ast.CallExpr) *restVal {
+	roles := []string{}
+	vals := []*restVal{}
+	for _, a := range ce.Args {
+		v := in.eval(a)
+		vals = append(vals, v)
+		roles = append(roles, in.argRole(v))
+	}
+	in.calls = append(in.calls, method+"("+strings.Join(roles, ",")+")")
+	errV := func(s string) *restVal { return &restVal{k: "err", s: s} }
+	switch in.mgrSig[method] {
+	case "canon":
+		if in.choose(2) == 0 {
+			in.key = append(in.key, "canon=ok")
+			res := restOpaque()
+			if len(vals) == 1 && vals[0].k == "rawvar" && vals[0].s == "name" {
+				res = &restVal{k: "canon"}
+			}
+			return &restVal{k: "tuple", tup: []*restVal{res, errV("nil")}}
+		}
+		in.key = append(in.key, "canon=err")
+		return &restVal{k: "tuple", tup: []*restVal{restOpaque(), errV("other")}}
+	case "ptr":
+		switch in.choose(4) {
+		case 0:
+			in.key = append(in.key, method+":found")
+			return &restVal{k: "tuple", tup: []*restVal{{k: "res", s: "nonnil"}, errV("nil")}}
+		case 1:
+			in.key = append(in.key, method+":nilnil")
+			return &restVal{k: "tuple", tup: []*restVal{{k: "res", s: "nil"}, errV("nil")}}
+		case 2:
+			in.key = append(in.key, method+":notExist")
+			return &restVal{k: "tuple", tup: []*restVal{{k: "res", s: "nil"}, errV("notExist")}}
+		}
+		in.key = append(in.key, method+":ioErr")
+		return &restVal{k: "tuple", tup: []*restVal{{k: "res", s: "nil"}, errV("other")}}
+	case "val", "err":
+		var e *restVal
+		switch in.choose(3) {
+		case 0:
+			in.key = append(in.key, method+":ok")
+			e = errV("nil")
+		case 1:
+			in.key = append(in.key, method+":notExist")
+			e = errV("notExist")
+		default:
+			in.key = append(in.key, method+":ioErr")
+			e = errV("other")
+		}
+		if in.mgrSig[method] == "err" {
+			return e
+		}
+		return &restVal{k: "tuple", tup: []*restVal{restOpaque(), e}}
+	}
+	in.abort("Manager method not in the interface: " + method)
+	return nil
+}
+
+func (in *restInterp) evalCall(ce *ast.CallExpr) *restVal {
+	// conversions `[]byte(x)`
+	if _, ok := ce.Fun.(*ast.ArrayType); ok && len(ce.Args) == 1 {
+		v := in.eval(ce.Args[0])
+		if s, ok := restAllLit(v); ok {
+			return &restVal{k: "bytes", s: s}
+		}
+		return restOpaque()
+	}
+	if _, ok := ce.Fun.(*ast.ParenExpr); ok {
+		in.plainArgs(ce)
+		return restOpaque()
+	}
+	if id, ok := ce.Fun.(*ast.Ident); ok {
+		if in.isLocal(id.Name) || restBuiltins[id.Name] {
+			if id.Name == "string" && len(ce.Args) == 1 {
+				v := in.eval(ce.Args[0])
+				if v.k == "bytes" {
+					return restStrVal(v.s)
+				}
+				return restOpaque()
+			}
+			for _, a := range ce.Args {
+				in.eval(a)
+			}
+			return restOpaque()
+		}
+		if fds := in.pkg.funcs[id.Name]; len(fds) == 1 && fds[0].Body != nil {
+			args := []*restVal{}
+			for _, a := range ce.Args {
+				args = append(args, in.eval(a))
+			}
+			return in.inline(fds[0], nil, args)
+		}
+		in.plainArgs(ce)
+		return restOpaque()
+	}
+	sel, ok := ce.Fun.(*ast.SelectorExpr)
+	if !ok {
+		in.plainArgs(ce)
+		return restOpaque()
+	}
+	if path, name, ok := in.pkgSel(sel); ok {
+		switch {
+		case path == "net/http" && name == "NotFound":
+			in.plainArgs(ce)
+			in.notFound = true
+			return restOpaque()
+		case path == "net/http" && (name == "NewRequestWithContext" || name == "NewRequest") && len(ce.Args) >= 3:
+			n := len(ce.Args)
+			m := in.eval(ce.Args[n-3])
+			u := in.eval(ce.Args[n-2])
+			b := in.eval(ce.Args[n-1])
+			in.requests = append(in.requests, restRequest(m, u, b))
+			return &restVal{k: "tuple", tup: []*restVal{restOpaque(), restOpaque()}}
+		case path == "net/url" && (name == "QueryEscape" || name == "PathEscape") && len(ce.Args) == 1:
+			v := in.eval(ce.Args[0])
+			what := "?"
+			if v.k == "param" {
+				what = v.s
+			}
+			return &restVal{k: "str", parts: []restPart{{false, name + ":" + what}}}
+		case (path == "fmt" && name == "Errorf") || (path == "errors" && name == "New"):
+			in.plainArgs(ce)
+			return &restVal{k: "err", s: "other"}
+		case path == "errors" && name == "Is" && len(ce.Args) == 2:
+			a := in.eval(ce.Args[0])
+			b := in.eval(ce.Args[1])
+			if r, ok := restEqual(a, b); ok {
+				return restBool(r)
+			}
+			return restOpaque()
+		case path == "bytes" && name == "NewReader" && len(ce.Args) == 1:
+			v := in.eval(ce.Args[0])
+			if v.k == "bytes" {
+				return &restVal{k: "reader", s: v.s}
+			}
+			return &restVal{k: "nonnil"}
+		case path == "encoding/json" && name == "Unmarshal":
+			in.markDecoded(ce)
+			return restOpaque()
+		case path == "fmt" && name == "Sprintf" && len(ce.Args) >= 1:
+			f := in.eval(ce.Args[0])
+			if fs, ok := restAllLit(f); ok {
+				segs := strings.Split(fs, "%s")
+				if len(segs) == len(ce.Args) && !strings.Contains(strings.Join(segs, ""), "%") {
+					ps := []restPart{{true, segs[0]}}
+					for i, a := range ce.Args[1:] {
+						ps = append(ps, restStrParts(in.eval(a))...)
+						ps = append(ps, restPart{true, segs[i+1]})
+					}
+					return &restVal{k: "str", parts: restMerge(ps)}
+				}
+			}
+			in.plainArgs(ce)
+			return restOpaque()
+		}
+		in.plainArgs(ce)
+		return restOpaque()
+	}
+	// method call
+	recv := in.eval(sel.X)
+	name := sel.Sel.Name
+	switch {
+	case recv.k == "mgr":
+		return in.mgrCall(name, ce)
+	case name == "JoinPath" && len(ce.Args) == 1:
+		a := in.eval(ce.Args[0])
+		return &restVal{k: "joined", s: "JoinPath", parts: restMerge(restStrParts(a))}
+	case name == "String" && len(ce.Args) == 0 && recv.k == "joined":
+		return &restVal{k: "urlstr", s: recv.s, parts: recv.parts}
+	case name == "Decode":
+		in.markDecoded(ce)
+		return restOpaque()
+	}
+	in.deref(recv)
+	if fds := in.pkg.methods[name]; len(fds) == 1 && fds[0].Body != nil {
+		args := []*restVal{}
+		for _, a := range ce.Args {
+			args = append(args, in.eval(a))
+		}
+		return in.inline(fds[0], recv, args)
+	}
+	in.plainArgs(ce)
+	return restOpaque()
+}
+
+// markDecoded: X.Decode(&v) / json.Unmarshal(b, &v): v now holds the request body
+func (in *restInterp) markDecoded(ce *ast.CallExpr) {
+	for _, a := range ce.Args {
+		if ue, ok := a.(*ast.UnaryExpr); ok && ue.Op == token.AND {
+			if id, ok := ue.X.(*ast.Ident); ok {
+				in.assign(id.Name, &restVal{k: "decoded"})
+				continue
+			}
+		}
+		in.eval(a)
+	}
+}
+
+func restRequest(m, u, b *restVal) string {
+	ms, ok := restAllLit(m)
+	if !ok {
+		ms = "?"
+	}
+	join, uri := "unknown", "?"
+	if u.k == "urlstr" {
+		join, uri = u.s, restShape(u.parts)
+	}
+	body := "?"
+	switch b.k {
+	case "nil":
+		body = "none"
+	case "reader":
+		t := strings.NewReplacer(" ", "", "\t", "", "\n", "", "\r", "").Replace(b.s)
+		if t == `{"seen":true}` {
+			body = "seenTrue"
+		} else {
+			body = "bytes:" + b.s
+		}
+	}
+	return ms + "\x00" + join + "\x00" + uri + "\x00" + body
+}
+
+func restZero(imports map[string]string, t ast.Expr) *restVal {
+	switch v := t.(type) {
+	case *ast.Ident:
+		switch v.Name {
+		case "error":
+			return &restVal{k: "err", s: "nil"}
+		case "string":
+			return restStrVal("")
+		case "bool":
+			return restBool(false)
+		}
+	case *ast.StarExpr, *ast.MapType, *ast.InterfaceType, *ast.FuncType, *ast.ChanType:
+		return &restVal{k: "nil"}
+	case *ast.ArrayType:
+		if v.Len == nil {
+			return &restVal{k: "nil"}
+		}
+	case *ast.SelectorExpr:
+		if path, _, ok := restPkgSel(imports, v); ok && path == "io" {
+			return &restVal{k: "nil"}
+		}
+	}
+	return restOpaque()
+}
+
+func (in *restInterp) inline(fd *ast.FuncDecl, recv *restVal, args []*restVal) *restVal {
+	if in.depth >= 4 {
+		in.abort("helper nesting too deep")
+	}
+	saved := in.fr
+	in.depth++
+	fr := &restFrame{fd: fd, file: in.pkg.fileOf[fd], scope: &restScope{vars: map[string]*restVal{}}}
+	in.fr = fr
+	if fd.Recv != nil && len(fd.Recv.List) == 1 && len(fd.Recv.List[0].Names) == 1 {
+		rv := recv
+		if rv == nil {
+			rv = restOpaque()
+		}
+		in.define(fd.Recv.List[0].Names[0].Name, rv)
+	}
+	i := 0
+	if fd.Type.Params != nil {
+		for _, fld := range fd.Type.Params.List {
+			for _, nm := range fld.Names {
+				if i < len(args) {
+					in.define(nm.Name, args[i])
+				} else {
+					in.define(nm.Name, restOpaque())
+				}
+				i++
+			}
+			if len(fld.Names) == 0 {
+				i++
+			}
+		}
+	}
+	nres := 0
+	if fd.Type.Results != nil {
+		for _, fld := range fd.Type.Results.List {
+			if len(fld.Names) == 0 {
+				fr.results = append(fr.results, "")
+				nres++
+			}
+			for _, nm := range fld.Names {
+				fr.results = append(fr.results, nm.Name)
+				in.define(nm.Name, restZero(in.pkg.imports[fr.file], fld.Type))
+				nres++
+			}
+		}
+	}
+	sig := in.block(fd.Body.List, false)
+	ret := fr.ret
+	if sig != restReturn {
+		ret = in.namedResults()
+	}
+	in.fr = saved
+	in.depth--
+	for len(ret) < nres {
+		ret = append(ret, restOpaque())
+	}
+	switch nres {
+	case 0:
+		return restOpaque()
+	case 1:
+		return ret[0]
+	}
+	return &restVal{k: "tuple", tup: ret[:nres]}
+}
+
+func (in *restInterp) namedResults() []*restVal {
+	out := []*restVal{}
+	for _, n := range in.fr.results {
+		if n == "" || n == "_" {
+			out = append(out, restOpaque())
+			continue
+		}
+		if _, v := in.fr.scope.lookup(n); v != nil {
+			out = append(out, v)
+		} else {
+			out = append(out, restOpaque())
+		}
+	}
+	return out
+}
+
+func (in *restInterp) block(list []ast.Stmt, scoped bool) int {
+	if scoped {
+		in.push()
+		defer in.pop()
+	}
+	for _, st := range list {
+		if sig := in.exec(st); sig != restNormal {
+			return sig
+		}
+	}
+	return restNormal
+}
+
+func (in *restInterp) setLHS(l ast.Expr, v *restVal, def bool) {
+	switch x := l.(type) {
+	case *ast.Ident:
+		if def {
+			in.define(x.Name, v)
+		} else {
+			in.assign(x.Name, v)
+		}
+	case *ast.SelectorExpr:
+		// a field of a local is overwritten: whatever was known about the local is gone
+		in.deref(in.eval(x.X))
+		if id, ok := x.X.(*ast.Ident); ok && in.isLocal(id.Name) {
+			in.assign(id.Name, restOpaque())
+		}
+	case *ast.IndexExpr:
+		in.eval(x.X)
+		in.eval(x.Index)
+	case *ast.StarExpr:
+		in.deref(in.eval(x.X))
+	}
+}
+
+func (in *restInterp) exec(st ast.Stmt) int {
+	in.steps++
+	if in.steps > 200000 {
+		in.abort("too many steps")
+	}
+	switch v := st.(type) {
+	case *ast.ExprStmt:
+		in.eval(v.X)
+	case *ast.EmptyStmt, *ast.IncDecStmt:
+	case *ast.AssignStmt:
+		def := v.Tok == token.DEFINE
+		if v.Tok != token.DEFINE && v.Tok != token.ASSIGN {
+			// += and friends
+			r := in.eval(v.Rhs[0])
+			if id, ok := v.Lhs[0].(*ast.Ident); ok && v.Tok == token.ADD_ASSIGN {
+				if _, cur := in.fr.scope.lookup(id.Name); cur != nil && (cur.k == "str" || r.k == "str") {
+					in.assign(id.Name, &restVal{k: "str", parts: restMerge(append(append([]restPart{}, restStrParts(cur)...), restStrParts(r)...))})
+					return restNormal
+				}
+			}
+			in.setLHS(v.Lhs[0], restOpaque(), false)
+			return restNormal
+		}
+		// `:=` defines only names that are new in the current scope
+		isNew := func(l ast.Expr) bool {
+			id, ok := l.(*ast.Ident)
+			if !ok || !def {
+				return false
+			}
+			_, exists := in.fr.scope.vars[id.Name]
+			return !exists
+		}
+		if len(v.Rhs) == 1 && len(v.Lhs) > 1 {
+			r := in.eval(v.Rhs[0])
+			for i, l := range v.Lhs {
+				val := restOpaque()
+				if r.k == "tuple" && i < len(r.tup) {
+					val = r.tup[i]
+				}
+				in.setLHS(l, val, isNew(l))
+			}
+			return restNormal
+		}
+		vals := []*restVal{}
+		for _, r := range v.Rhs {
+			val := in.eval(r)
+			if val.k == "tuple" {
+				val = restOpaque()
+			}
+			vals = append(vals, val)
+		}
+		for i, l := range v.Lhs {
+			if i < len(vals) {
+				in.setLHS(l, vals[i], isNew(l))
+			}
+		}
+	case *ast.DeclStmt:
+		gd, ok := v.Decl.(*ast.GenDecl)
+		if !ok {
+			in.abort("declaration")
+		}
+		for _, sp := range gd.Specs {
+			vs, ok := sp.(*ast.ValueSpec)
+			if !ok {
+				continue
+			}
+			for i, nm := range vs.Names {
+				var val *restVal
+				switch {
+				case i < len(vs.Values):
+					val = in.eval(vs.Values[i])
+				case vs.Type != nil:
+					val = restZero(in.imports(), vs.Type)
+				default:
+					val = restOpaque()
+				}
+				in.define(nm.Name, val)
+			}
+		}
+	case *ast.BlockStmt:
+		return in.block(v.List, true)
+	case *ast.IfStmt:
+		in.push()
+		defer in.pop()
+		if v.Init != nil {
+			in.exec(v.Init)
+		}
+		if in.truth(v.Cond) {
+			return in.block(v.Body.List, true)
+		}
+		if v.Else != nil {
+			return in.exec(v.Else)
+		}
+	case *ast.SwitchStmt:
+		in.push()
+		defer in.pop()
+		if v.Init != nil {
+			in.exec(v.Init)
+		}
+		if v.Tag != nil {
+			switch v.Tag.(type) {
+			case *ast.Ident, *ast.SelectorExpr:
 			default:
-				noteUse(v.Cond)
-				for _, s := range v.Body.List {
-					visitStmt(s, false)
+				in.abort("switch tag with effects")
+			}
+		}
+		var def *ast.CaseClause
+		for _, c := range v.Body.List {
+			cc := c.(*ast.CaseClause)
+			if cc.List == nil {
+				def = cc
+				continue
+			}
+			hit := false
+			for _, e := range cc.List {
+				if v.Tag != nil {
+					hit = in.evalEq(v.Tag, e)
+				} else {
+					hit = in.truth(e)
 				}
-				if v.Else != nil {
-					if b, ok := v.Else.(*ast.BlockStmt); ok {
-						for _, s := range b.List {
-							visitStmt(s, false)
+				if hit {
+					break
+				}
+			}
+			if hit {
+				return in.caseBody(cc)
+			}
+		}
+		if def != nil {
+			return in.caseBody(def)
+		}
+	case *ast.ReturnStmt:
+		switch {
+		case len(v.Results) == 0:
+			in.fr.ret = in.namedResults()
+		case len(v.Results) == 1 && len(in.fr.results) > 1:
+			r := in.eval(v.Results[0])
+			if r.k == "tuple" {
+				in.fr.ret = r.tup
+			} else {
+				in.fr.ret = nil
+			}
+		default:
+			out := []*restVal{}
+			for _, r := range v.Results {
+				out = append(out, in.eval(r))
+			}
+			in.fr.ret = out
+		}
+		return restReturn
+	case *ast.ForStmt:
+		in.push()
+		defer in.pop()
+		if v.Init != nil {
+			in.exec(v.Init)
+		}
+		if v.Cond == nil {
+			in.abort("unbounded loop")
+		}
+		if in.truth(v.Cond) {
+			if sig := in.block(v.Body.List, true); sig == restReturn {
+				return sig
+			}
+		}
+	case *ast.RangeStmt:
+		in.deref(in.eval(v.X))
+		if in.choose(2) == 0 {
+			in.push()
+			defer in.pop()
+			for _, kv := range []ast.Expr{v.Key, v.Value} {
+				if id, ok := kv.(*ast.Ident); ok {
+					in.define(id.Name, &restVal{k: "nonnil"})
+				}
+			}
+			if sig := in.block(v.Body.List, true); sig == restReturn {
+				return sig
+			}
+		}
+	case *ast.DeferStmt:
+		if _, isLit := v.Call.Fun.(*ast.FuncLit); !isLit {
+			in.eval(v.Call)
+		}
+	case *ast.BranchStmt:
+		switch v.Tok {
+		case token.BREAK:
+			if v.Label == nil {
+				return restBreak
+			}
+		case token.CONTINUE:
+			if v.Label == nil {
+				return restContinue
+			}
+		}
+		in.abort("branch statement")
+	default:
+		in.abort(fmt.Sprintf("statement %T", st))
+	}
+	return restNormal
+}
+
+func (in *restInterp) caseBody(cc *ast.CaseClause) int {
+	for _, s := range cc.Body {
+		if b, ok := s.(*ast.BranchStmt); ok && b.Tok == token.FALLTHROUGH {
+			in.abort("fallthrough")
+		}
+	}
+	sig := in.block(cc.Body, true)
+	if sig == restBreak {
+		return restNormal
+	}
+	return sig
+}
+
+type restRow struct {
+	key, calls string
+	outcomes   map[string]bool
+}
+
+type restRun struct {
+	rows     map[string]*restRow
+	requests map[string]bool
+	unknown  string
+	paths    int
+}
+
+// restExplore runs fd on every combination of choices.  mode "handler": all parameters opaque; mode "client": the n-th
+// string-typed parameter is param:n.
+func restExplore(p *restPkg, mgrSig map[string]string, fd *ast.FuncDecl, mode string) *restRun {
+	run := &restRun{rows: map[string]*restRow{}, requests: map[string]bool{}}
+	if fd == nil || fd.Body == nil {
+		run.unknown = "no such function"
+		return run
+	}
+	in := &restInterp{pkg: p, mgrSig: mgrSig}
+	for {
+		run.paths++
+		if run.paths > 20000 {
+			run.unknown = "too many paths"
+			return run
+		}
+		in.pos, in.key, in.calls, in.notFound, in.status, in.requests, in.depth, in.steps = 0, nil, nil, false, "", nil, 0, 0
+		outcome := ""
+		func() {
+			defer func() {
+				if r := recover(); r != nil {
+					st, ok := r.(restStop)
+					if !ok {
+						panic(r)
+					}
+					if st.kind == "panic" {
+						outcome = "panic"
+					} else {
+						outcome = "unknown"
+					}
+				}
+			}()
+			args := []*restVal{}
+			ns := 0
+			if fd.Type.Params != nil {
+				for _, fld := range fd.Type.Params.List {
+					n := len(fld.Names)
+					if n == 0 {
+						n = 1
+					}
+					for i := 0; i < n; i++ {
+						if id, ok := fld.Type.(*ast.Ident); ok && id.Name == "string" && mode == "client" {
+							ns++
+							args = append(args, &restVal{k: "param", s: strconv.Itoa(ns)})
+						} else {
+							args = append(args, restOpaque())
 						}
 					}
 				}
 			}
-		case *ast.RangeStmt:
-			noteUse(v.X)
-			for _, s := range v.Body.List {
-				visitStmt(s, false)
+			in.fr = nil
+			ret := in.inline(fd, nil, args)
+			last := ret
+			if ret.k == "tuple" && len(ret.tup) > 0 {
+				last = ret.tup[len(ret.tup)-1]
 			}
-		default:
-			noteUse(st)
+			switch tok := restNilTok(last); {
+			case tok == "nil" && in.notFound:
+				outcome = "notFound"
+			case tok == "nil" && in.status != "":
+				outcome = "status:" + in.status
+			case tok == "nil":
+				outcome = "done"
+			case tok != "" && in.notFound:
+				outcome = "notFound+error"
+			case tok != "":
+				outcome = "error"
+			case in.notFound:
+				outcome = "notFound+?"
+			default:
+				outcome = "done"
+			}
+		}()
+		if outcome == "unknown" {
+			run.unknown = in.reason
+			return run
 		}
+		k, c := strings.Join(in.key, ";"), strings.Join(in.calls, ";")
+		id := k + "|" + c
+		if run.rows[id] == nil {
+			run.rows[id] = &restRow{key: k, calls: c, outcomes: map[string]bool{}}
+		}
+		run.rows[id].outcomes[outcome] = true
+		for _, r := range in.requests {
+			run.requests[r] = true
+		}
+		// next script
+		i := in.pos - 1
+		in.script, in.limits = in.script[:in.pos], in.limits[:in.pos]
+		for i >= 0 && in.script[i]+1 >= in.limits[i] {
+			i--
+		}
+		if i < 0 {
+			return run
+		}
+		in.script = in.script[:i+1]
+		in.limits = in.limits[:i+1]
+		in.script[i]++
 	}
-	for _, st := range fd.Body.List {
-		visitStmt(st, true)
-	}
-	hf.canonFirst = canonVar != "" && canonChecked && canonOK
-	switch {
-	case resVar == "":
-		hf.nilGuard = "none"
-	case used && usedBefore:
-		hf.nilGuard = "unguarded"
-	case used && guarded:
-		hf.nilGuard = "guarded"
-	}
-	switch {
-	case sawEq404 && !sawPassNil:
-		hf.notExist = "eq404"
-	case sawPassNil && !sawEq404:
-		hf.notExist = "passNil"
-	case !sawEq404 && !sawPassNil:
-		hf.notExist = "none"
-	}
-	return hf
 }
+
+func restSplit(s string) []string {
+	if s == "" {
+		return nil
+	}
+	return strings.Split(s, ";")
+}
+
+func restLeanRows(run *restRun) string {
+	if run.unknown != "" {
+		return "[([\"unknown\"], [], [" + leanStr(run.unknown) + "])]"
+	}
+	ids := []string{}
+	for id := range run.rows {
+		ids = append(ids, id)
+	}
+	sort.Strings(ids)
+	out := []string{}
+	for _, id := range ids {
+		r := run.rows[id]
+		oc := []string{}
+		for o := range r.outcomes {
+			oc = append(oc, o)
+		}
+		sort.Strings(oc)
+		out = append(out, fmt.Sprintf("(%s, %s, %s)", strList(restSplit(r.key)), strList(restSplit(r.calls)), strList(oc)))
+	}
+	return "[\n    " + strings.Join(out, ",\n    ") + "]"
+}
+
+// restMgrSig reads `type Manager interface` of pkg/message: which methods answer a possibly-nil pointer / interface
+func restMgrSig() map[string]string {
+	sig := map[string]string{}
+	p := restLoadPkg("pkg/message")
+	for _, f := range p.files {
+		ast.Inspect(f, func(n ast.Node) bool {
+			ts, ok := n.(*ast.TypeSpec)
+			if !ok || ts.Name.Name != "Manager" {
+				return true
+			}
+			it, ok := ts.Type.(*ast.InterfaceType)
+			if !ok {
+				return false
+			}
+			for _, m := range it.Methods.List {
+				ft, ok := m.Type.(*ast.FuncType)
+				if !ok || len(m.Names) != 1 || ft.Results == nil {
+					continue
+				}
+				res := []ast.Expr{}
+				for _, r := range ft.Results.List {
+					k := len(r.Names)
+					if k == 0 {
+						k = 1
+					}
+					for i := 0; i < k; i++ {
+						res = append(res, r.Type)
+					}
+				}
+				if id, ok := res[len(res)-1].(*ast.Ident); !ok || id.Name != "error" {
+					continue
+				}
+				name := m.Names[0].Name
+				switch {
+				case name == "MailboxForAddress" && len(res) == 2:
+					sig[name] = "canon"
+				case len(res) == 1:
+					sig[name] = "err"
+				case len(res) == 2:
+					switch res[0].(type) {
+					case *ast.StarExpr, *ast.SelectorExpr, *ast.InterfaceType:
+						sig[name] = "ptr"
+					default:
+						sig[name] = "val"
+					}
+				}
+			}
+			return false
+		})
+	}
+	return sig
+}
+
+// ---------------------------------------------------------------------------------------------------------------------
 
 func extractRest() {
 	g := gen("Rest")
 	fmt.Fprintf(&g.buf, "inductive Seg | lit (b : List Nat) | var\n  deriving DecidableEq, Repr\n\n")
-	order, prefix := subPrefixes()
-	var all []routeFact
+	order, prefix := restSubPrefixes()
+	var all []restRoute
 	okAll := len(order) == 2
-	files := map[string]string{"webui": "pkg/webui/routes.go", "rest": "pkg/rest/routes.go"}
+	dirs := map[string]string{"webui": "pkg/webui", "rest": "pkg/rest"}
 	for _, pkg := range order {
-		rs, ok := routesOf(files[pkg], prefix[pkg])
-		if !ok {
+		pre, known := prefix[pkg]
+		rs, ok := restRoutesOf(dirs[pkg], pre)
+		if !ok || !known {
 			okAll = false
 		}
 		all = append(all, rs...)
 	}
 	rows := []string{}
 	for _, r := range all {
-		rows = append(rows, fmt.Sprintf("(%s, %s, %s, %s, %s)", leanStr(r.fn), leanStr(r.name), leanStr(r.method), byteList(r.sub), leanSegs(r.tpl)))
+		rows = append(rows, fmt.Sprintf("(%s, %s, %s, %s, %s)", leanStr(r.fn), leanStr(r.name), leanStr(r.method), byteList(r.sub), restLeanSegs(r.tpl)))
 	}
 	val := "none"
 	if okAll {
@@ -328,120 +1655,86 @@ func extractRest() {
 	g.def("routes", "Option (List (String × String × String × List Nat × List Seg))", val,
 		"(handler function, route name, method, sub-router prefix, template) in registration order: FullAssembly registers "+strings.Join(order, " then "))
 
+	// ---- handlers
+	mgrSig := restMgrSig()
 	hrows := []string{}
 	seenFlag := "none"
 	for _, pf := range []struct {
-		rel   string
+		dir   string
 		names []string
 	}{
-		{"pkg/rest/apiv1_controller.go", []string{"MailboxListV1", "MailboxShowV1", "MailboxMarkSeenV1", "MailboxPurgeV1", "MailboxSourceV1", "MailboxDeleteV1"}},
-		{"pkg/webui/mailbox_controller.go", []string{"MailboxMessage", "MailboxHTML", "MailboxSource", "MailboxViewAttach"}},
+		{"pkg/rest", []string{"MailboxListV1", "MailboxShowV1", "MailboxMarkSeenV1", "MailboxPurgeV1", "MailboxSourceV1", "MailboxDeleteV1"}},
+		{"pkg/webui", []string{"MailboxMessage", "MailboxHTML", "MailboxSource", "MailboxViewAttach"}},
 	} {
-		f := parse(pf.rel)
+		p := restLoadPkg(pf.dir)
 		for _, n := range pf.names {
-			h := restHandlerFacts(f, n)
-			b := "false"
-			if h.canonFirst {
-				b = "true"
+			var fd *ast.FuncDecl
+			if len(p.funcs[n]) == 1 {
+				fd = p.funcs[n][0]
 			}
-			hrows = append(hrows, fmt.Sprintf("(%s, %s, %s, %s, %s)", leanStr(h.name), b, strList(h.mgrCalls), leanStr(h.nilGuard), leanStr(h.notExist)))
-		}
-		if fd := fn(f, "", "MailboxMarkSeenV1"); fd != nil {
-			// `if dm.Seen { err = ctx.Manager.MarkSeen(…) … }` and no MarkSeen call outside it
-			inside, outside := 0, 0
-			ast.Inspect(fd, func(n ast.Node) bool {
-				if is, ok := n.(*ast.IfStmt); ok && src(is.Cond) == "dm.Seen" {
-					ast.Inspect(is.Body, func(x ast.Node) bool {
-						if ce, ok := x.(*ast.CallExpr); ok && src(ce.Fun) == "ctx.Manager.MarkSeen" {
-							inside++
-						}
-						return true
-					})
-					return false
+			run := restExplore(p, mgrSig, fd, "handler")
+			hrows = append(hrows, fmt.Sprintf("(%s, %s)", leanStr(n), restLeanRows(run)))
+			if n == "MailboxMarkSeenV1" && run.unknown == "" {
+				// MarkSeen is called on exactly the paths whose decoded body says Seen
+				with, without, flagNoCall := 0, 0, 0
+				for _, r := range run.rows {
+					called := strings.Contains(";"+r.calls, ";MarkSeen(")
+					flagged := strings.Contains(";"+r.key+";", ";seen=true;")
+					switch {
+					case called && flagged:
+						with++
+					case called:
+						without++
+					case flagged:
+						flagNoCall++
+					}
 				}
-				if ce, ok := n.(*ast.CallExpr); ok && src(ce.Fun) == "ctx.Manager.MarkSeen" {
-					outside++
+				switch {
+				case with > 0 && without == 0 && flagNoCall == 0:
+					seenFlag = "some true"
+				case without > 0 && with == 0:
+					seenFlag = "some false"
 				}
-				return true
-			})
-			if inside == 1 && outside == 0 {
-				seenFlag = "some true"
-			} else if inside == 0 && outside == 1 {
-				seenFlag = "some false"
 			}
 		}
 	}
-	g.def("handlers", "List (String × Bool × List String × String × String)", "[\n  "+strings.Join(hrows, ",\n  ")+"]",
-		"(handler, MailboxForAddress-then-return-err dominates all Manager calls and feeds them, Manager calls, nilGuard, how ErrNotExist is answered)")
-	g.def("seenRequiresFlag", "Option Bool", seenFlag, "MailboxMarkSeenV1 calls MarkSeen only under `if dm.Seen`")
+	g.def("handlers", "List (String × List (List String × List String × List String))", "[\n  "+strings.Join(hrows, ",\n  ")+"]",
+		"per handler the behaviour table: (answers of the message.Manager calls / body flag chosen on the path, "+
+			"Manager calls made with the role of each argument, outcomes: notFound | error | panic | done), sorted by the first two columns")
+	g.def("seenRequiresFlag", "Option Bool", seenFlag, "MailboxMarkSeenV1 calls MarkSeen exactly on the paths where the decoded body's Seen is true")
 
 	// ---- client
-	cf := parse("pkg/rest/client/apiv1_client.go")
-	body := "unknown"
-	if fd := fn(cf, "Client", "MarkSeenWithContext"); fd != nil {
-		ast.Inspect(fd, func(n ast.Node) bool {
-			if ce, ok := n.(*ast.CallExpr); ok && src(ce.Fun) == "c.do" && len(ce.Args) == 4 {
-				switch a := src(ce.Args[3]); {
-				case a == "nil":
-					body = "none"
-				case a == "[]byte(`{\"seen\":true}`)" || a == `[]byte("{\"seen\":true}")`:
-					body = "seenTrue"
-				}
-			}
-			return true
-		})
-	}
-	g.def("clientMarkSeenBody", "String", leanStr(body), "the request body pkg/rest/client's MarkSeen sends")
-	escs := []string{}
+	cp := restLoadPkg("pkg/rest/client")
+	escs, bodies, joins := []string{}, []string{}, []string{}
 	for _, m := range []string{"ListMailboxWithContext", "GetMessageWithContext", "MarkSeenWithContext", "GetMessageSourceWithContext", "DeleteMessageWithContext", "PurgeMailboxWithContext"} {
-		e := "unknown"
-		if fd := fn(cf, "Client", m); fd != nil {
-			ast.Inspect(fd, func(n ast.Node) bool {
-				as, ok := n.(*ast.AssignStmt)
-				if !ok || len(as.Lhs) != 1 || src(as.Lhs[0]) != "uri" || len(as.Rhs) != 1 {
-					return true
-				}
-				// uri := "/api/v1/mailbox/" + url.X(name) [+ "/" + id [+ "/source"]]
-				parts := []string{}
-				var flat func(ast.Expr)
-				flat = func(x ast.Expr) {
-					if be, ok := x.(*ast.BinaryExpr); ok && be.Op == token.ADD {
-						flat(be.X)
-						flat(be.Y)
-						return
-					}
-					parts = append(parts, src(x))
-				}
-				flat(as.Rhs[0])
-				shape := strings.Join(parts, " ")
-				for _, fnn := range []string{"QueryEscape", "PathEscape"} {
-					p := `"/api/v1/mailbox/" url.` + fnn + `(name)`
-					switch shape {
-					case p:
-						e = fnn + ":box"
-					case p + ` "/" id`:
-						e = fnn + ":msg"
-					case p + ` "/" id "/source"`:
-						e = fnn + ":source"
-					}
-				}
-				return false
-			})
+		var fd *ast.FuncDecl
+		for _, c := range cp.methods[m] {
+			if r := fn(cp.fileOf[c], "Client", m); r == c {
+				fd = c
+			}
 		}
-		escs = append(escs, e)
+		run := restExplore(cp, map[string]string{}, fd, "client")
+		e, b, j := "unknown", "unknown", "unknown"
+		if run.unknown == "" && len(run.requests) == 1 {
+			for r := range run.requests {
+				f := strings.Split(r, "\x00")
+				e, j, b = f[0]+" "+f[2], f[1], f[3]
+			}
+		}
+		escs, bodies, joins = append(escs, e), append(bodies, b), append(joins, j)
 	}
-	g.def("clientEscapers", "List String", strList(escs), "escaping function and URI shape of List, Get, MarkSeen, Source, Delete, Purge")
-	// JoinPath is what turns the URI into the request path
 	jp := "unknown"
-	if rf := parse("pkg/rest/client/rest.go"); rf != nil {
-		if fd := fn(rf, "restClient", "do"); fd != nil {
-			ast.Inspect(fd, func(n ast.Node) bool {
-				if ce, ok := n.(*ast.CallExpr); ok && src(ce.Fun) == "c.baseURL.JoinPath" && len(ce.Args) == 1 && src(ce.Args[0]) == "uri" {
-					jp = "JoinPath"
-				}
-				return true
-			})
+	if len(joins) == 6 {
+		jp = joins[0]
+		for _, j := range joins {
+			if j != jp {
+				jp = "mixed"
+			}
 		}
 	}
-	g.def("clientJoin", "String", leanStr(jp), "how restClient.do builds the request URL from the URI")
+	g.def("clientMarkSeenBody", "String", leanStr(bodies[2]), "the request body pkg/rest/client's MarkSeen hands to http.NewRequest (seenTrue = the JSON object {\"seen\":true})")
+	g.def("clientBodies", "List String", strList(bodies), "request bodies of List, Get, MarkSeen, Source, Delete, Purge")
+	g.def("clientEscapers", "List String", strList(escs),
+		"HTTP method and URI of List, Get, MarkSeen, Source, Delete, Purge as they reach http.NewRequest: literal text, {QueryEscape:n} / {PathEscape:n} / {raw:n} = n-th string parameter")
+	g.def("clientJoin", "String", leanStr(jp), "how the request URL is built from the URI in every operation: JoinPath = <URL>.JoinPath(uri).String()")
 }
